@@ -117,6 +117,12 @@ func (c *Ctx) fail(f Failure) {
 
 // Queue a case for comparison against the model driver.
 func (c *Ctx) model(op, impl, cmp string) {
+	if len(op) > 6000 && (strings.HasPrefix(op, "tok c:") || strings.HasPrefix(op, "tok C:") || strings.HasPrefix(op, "tok D:") || strings.HasPrefix(op, "tok E:")) {
+		// the csv model reads a long word character by character onto the end of a list (quadratic): inputs beyond ~1500
+		// characters are judged by the direct oracles only
+		c.count("csv-long-input(not compared with the model)")
+		return
+	}
 	c.pending = append(c.pending, pendingCase{op, impl, cmp})
 	if len(c.pending) >= 200000 {
 		c.flush()
